@@ -792,7 +792,52 @@ def w22(ctx, rid):
         ctx.bad(rid, key, f.where(), 'the tools writer buffers its output (%s) and the driver can return Ok without a successful flush: the tail of the output is written in Drop, where a write error is ignored - recovery / migration report success on a cut output' % buffered[0])
 
 
+def w23(ctx, rid):
+    """the offline reader skips the data of a record only after a HEADER validation failure: `skip_wrong_record_data` consumes the
+    header remembered by that failure.  Reached for another error kind (a payload checksum mismatch: the record is already
+    consumed, nothing is remembered) it fails with `wrong header not found`, the copy loop stops, and everything behind the
+    damaged record - deletion markers of unrelated keys included - is silently left out of the recovered blob"""
+    prog = ctx.prog
+    adt = prog.adts.get('tools::error::ToolsError')
+    if adt is None:
+        raise core.AnchorLost('tools::error::ToolsError')
+    names = [v['name'] for v in adt['variants']]
+    if 'RecordHeaderValidation' not in names:
+        raise core.AnchorLost('ToolsError::RecordHeaderValidation')
+    want = names.index('RecordHeaderValidation')
+    n = 0
+    for f in prog.fns.values():
+        if not f.file.startswith('src/tools/') or '::tests::' in f.id:
+            continue
+        for c in f.calls:
+            if c.bb not in f.reachable() or c.name != 'skip_wrong_record_data':
+                continue
+            n += 1
+            key = 'skip-only-after-header-failure|%s' % prog.fns[f.id].root
+            wrong = []
+            decided = 0
+            for sw in core.deciding_switches(f, c.bb):
+                t = f.blocks[sw]['t']
+                ogs = core.origins(f, t['o'])
+                if not any(o.kind == 'discr' and (core.place_type_str(o.fn, o.data['p']) or '').replace('&', '').replace('mut ', '').strip() == 'tools::error::ToolsError' for o in ogs):
+                    continue
+                decided += 1
+                edges = [(v, tg) for v, tg in t['vals']] + [(None, t['otherwise'])]
+                for v, tg in edges:
+                    if f.blocks[tg]['t']['k'] == 'unreachable':
+                        continue
+                    if c.bb in f.reach_from([tg], avoid_enter=[sw]) and v != want:
+                        wrong.append(names[v] if isinstance(v, int) and v < len(names) else 'any other kind')
+            if wrong:
+                ctx.bad(rid, key, c.where(), 'the data-skip of the offline reader is also reached for the error kind `%s`: no header was remembered for it, the skip fails and the rest of the blob is dropped from the recovery' % wrong[0])
+            else:
+                ctx.ok(rid, key, c.where(), 'reached only on the RecordHeaderValidation edge (%d deciding matches on the error kind)' % decided)
+    if n < 1:
+        raise core.AnchorLost('calls of skip_wrong_record_data: %d' % n)
+
+
 RULES = [
+    Rule('C16.W23', 'the offline reader skips record data only after a header validation failure', w23, 1),
     Rule('C16.W1', 'the tools\' record writer stamps its own position into blob_offset (and recomputes the header CRC) before serialising a header', w1, 1),
     Rule('C16.W2', 'the recovered output is re-validated whenever validation was requested', w2, 1),
     Rule('C16.W3', 'the tools never truncate their own input: input != output and header read precede the create; in-place recovery renames first', w3, 2),
